@@ -42,9 +42,16 @@ type zzRecQueue struct {
 	closed   int
 	addErr   error
 	onRead   func() // runs when Read is entered (a Read that blocks before it returns)
+	block    chan struct{} // non-nil: Read with nothing scripted blocks until Close (as a real queue does)
 }
 
-func (q *zzRecQueue) Close() error { q.closed++; return nil }
+func (q *zzRecQueue) Close() error {
+	q.closed++
+	if q.block != nil && q.closed == 1 {
+		close(q.block)
+	}
+	return nil
+}
 func (q *zzRecQueue) Init(o *queue.InitOptions) error {
 	q.inits = append(q.inits, o)
 	return nil
@@ -66,6 +73,9 @@ func (q *zzRecQueue) Read(pids []packets.PacketID) ([]*queue.Elem, error) {
 		q.onRead()
 	}
 	if q.script == nil {
+		if q.block != nil {
+			<-q.block
+		}
 		return nil, queue.ErrClosed
 	}
 	out := q.script
